@@ -50,6 +50,7 @@ def chain_cases(draw, max_n=50):
     base = draw(twin.twin_cases("HighLowAverage", max_n=max_n))
     base.pop("cfg")
     base["chain"] = [up, down]
+    base["late_down"] = draw(st.booleans())  # the dependant is registered later through add_indicator
     return base
 
 
@@ -58,7 +59,7 @@ def _run_chain(case):
 
     from hxv.lib import build_indicator, mgr_kwargs, mk_candles
 
-    labels = ["chain"] + (["has_tf"] if case.get("tf") else [])
+    labels = ["chain"] + (["has_tf"] if case.get("tf") else []) + (["chain_late_add"] if case.get("late_down") else [])
     pre, chunks = twin.schedule(case)
 
     def build(rows):
@@ -71,7 +72,12 @@ def _run_chain(case):
     except Exception as exc:
         b_exc = exc
     try:
-        inc = build(pre)
+        if case.get("late_down"):
+            inc = Hexital("c01", mk_candles(pre), [build_indicator(case["chain"][0])], **mgr_kwargs(case))
+            inc.calculate()
+            inc.add_indicator(build_indicator(case["chain"][1]))
+        else:
+            inc = build(pre)
         if case.get("preload_calc"):
             inc.calculate()
         for ch in chunks:
